@@ -31,8 +31,28 @@ let scan_codec inject ri w psv pt prec planes =
     let percomp x = List.map irows (transpose_rows x) in           (* comps -> rows -> samples *)
     let e = percomp ed and d = percomp dd and o = percomp out in
     ignore nn;
-    Some (List.map2 (fun (a, b) c -> (a, b, c)) (List.combine e d) o)
+    Some (List.map2 (fun (a, b) c -> (a, b, c)) (List.combine e d) o, ed)
   end
+
+(* bytes of the scan: statistics pass (counts[nbits]++), jpeg_gen_optimal_table, derived
+   table, then emit_bits / stuffing / RSTn / final padding -- all by the extracted model.
+   All components use Huffman table 0 in lossless mode. *)
+let scan_bytes ri w n ed =
+  let cnt = Array.make 256 0 in
+  List.iter (List.iter (List.iter (fun d ->
+      let (nb, _) = encode_diff d in let k = int_of_z nb in cnt.(k) <- cnt.(k) + 1))) ed;
+  match gen_optimal_table (zl (Array.to_list cnt)) with
+  | Inl _ -> None
+  | Inr t ->
+      (match make_c_derived t.h_bits t.h_vals (zi 16) with
+       | None -> None
+       | Some ct ->
+           let rec rep x k = if k = 0 then [] else x :: rep x (k - 1) in
+           (match encode_scan_bytes (fun _ -> ct) (zi ri) (rep Z0 n) (nat_of_int w) ed with
+            | None -> None
+            | Some bytes ->
+                let nv = List.fold_left (+) 0 (il (drop 1 t.h_bits)) in
+                Some (0 :: (il (drop 1 t.h_bits)) @ take nv (il t.h_vals), il bytes)))
 let () = iter_lines (fun line ->
   let fs = fields line in
   let hd = words (List.nth fs 0) in
@@ -85,11 +105,15 @@ let () = iter_lines (fun line ->
           let (psv, pt) = List.nth pp (List.hd comps) in
           scan_codec false ri w psv pt prec (List.map (List.nth planes) comps)) scans in
       if List.exists (fun r -> r = None) results then print_endline "rej" else begin
-        let per = List.concat (List.map (function Some l -> l | None -> []) results) in
+        let per = List.concat (List.map (function Some (l, _) -> l | None -> []) results) in
+        let sb = List.map2 (fun comps r -> match r with
+            | Some (_, ed) -> scan_bytes ri w (List.length comps) ed | None -> None) scans results in
+        let tbs = String.concat "" (List.map (function Some (t, _) -> sp t ^ " /" | None -> " ? /") sb) in
+        let ecs = String.concat " /" (List.map (function Some (_, b) -> sp b | None -> " ?") sb) in
         let ed = List.map (fun (e, _, _) -> e) per and dd = List.map (fun (_, d, _) -> d) per
         and out = List.map (fun (_, _, o) -> o) per in
         let eds = if kind = "tj" then " -" else group ed in
-        Printf.printf "ok ed%s ; dd%s ; out%s\n" eds (group dd) (group out)
+        Printf.printf "ok ed%s ; dd%s ; out%s ; tb%s ; ecs%s\n" eds (group dd) (group out) tbs ecs
       end
   | "inj" :: rest ->
       let a = List.map int_of_string rest in
@@ -98,7 +122,7 @@ let () = iter_lines (fun line ->
       let planes = List.map (fun f -> split_rows w (ints_of f)) (take nc (drop 2 fs)) in
       (match scan_codec true ri w psv pt prec planes with
        | None -> print_endline "rej"
-       | Some per ->
+       | Some (per, _) ->
            Printf.printf "ok dd%s ; out%s\n" (group (List.map (fun (_, d, _) -> d) per))
              (group (List.map (fun (_, _, o) -> o) per)))
   | _ -> print_endline "?")
